@@ -279,8 +279,10 @@ def main(argv):
                     "evaluations": 1, "distinct_nontrivial": 2, "explanation": "undecided before any obligation was generated: " + "; ".join(undecided)[:400]})
         ev["level"] = "other"
     vlib.write_json(ev_path, ev)
-    for u in undecided:
-        log("UNDECIDED: " + u)
+    for u in undecided[:12]:
+        log("UNDECIDED: " + u[:400])
+    if len(undecided) > 12:
+        log("UNDECIDED: ... and %d more reasons (see evidence file)" % (len(undecided) - 12))
     log("%s %s tier=%s obligations=%s discharged=%s named=%s violations=%d undecided=%d wall=%.1fs -> exit %d" % (
         pid, prop["title"], tier, cov.get("obligations"), cov.get("discharged"), cov.get("named_obligations"), ev["violations"], len(undecided), ev["wall_s"], rc_exit))
     return rc_exit
